@@ -306,7 +306,8 @@ class Key(AbstractKey):
         :type name: :any:`NonStrictName`
         """
         name = Name.to_bytes(name)
-        self.pib.conn.execute('UPDATE certificates SET is_default=1 WHERE certificate_name=?', (name,))
+        self.pib.conn.execute('UPDATE certificates SET is_default=1 WHERE certificate_name=? AND key_id=?',
+                              (name, self.row_id))
         self.pib.conn.commit()
 
     def default_cert(self) -> Certificate:
@@ -414,7 +415,8 @@ class Identity(AbstractIdentity):
         :type name: :any:`NonStrictName`
         """
         name = Name.to_bytes(name)
-        self.pib.conn.execute('UPDATE keys SET is_default=1 WHERE key_name=?', (name,))
+        self.pib.conn.execute('UPDATE keys SET is_default=1 WHERE key_name=? AND identity_id=?',
+                              (name, self.row_id))
         self.pib.conn.commit()
 
     def default_key(self) -> Key:
